@@ -151,42 +151,246 @@ theorem getLast_mem_of_append (a p : Bytes) (hp : p ≠ []) (c : UInt8) (h : (a 
     have : d ∈ p.reverse := by rw [hr]; simp
     exact List.mem_reverse.mp this
 
-/-- a well-formed `<keyword> <host>:<port>` entry is parsed to exactly that keyword, host and port -/
-theorem parseProxy_wellformed (k h p : Bytes) (hk : isKeyword k = true)
-    (hh : ∀ c ∈ h, isHostChar c = true) (hp : validPort p = true) :
-    parseProxy (k ++ 32 :: (h ++ 58 :: p)) = some ⟨parseMode k, h, p⟩ := by
-  unfold validPort at hp
-  simp only [Bool.and_eq_true, Bool.not_eq_true', List.all_eq_true, decide_eq_true_eq] at hp
-  obtain ⟨⟨⟨hp0, hpd⟩, _⟩, _⟩ := hp
-  have hpne : p ≠ [] := by intro e; subst e; simp at hp0
-  have hlast : ∀ c, (k ++ 32 :: (h ++ 58 :: p)).getLast? = some c → isGoSpace c = false := by
-    intro c hc
-    have e : k ++ 32 :: (h ++ 58 :: p) = (k ++ 32 :: (h ++ [58])) ++ p := by simp
-    rw [e] at hc
-    exact digit_not_space c (hpd c (getLast_mem_of_append _ p hpne c hc))
-  have hsplit := splitHostPort_plain h p (fun c hc => hostChar_ok c (hh c hc)) (fun c hc => digit_ok c (hpd c hc))
+/-! ### the port check: `strconv.ParseUint(p, 10, 16)` succeeds ⇔ `validPort p` -/
+
+/-- the digit fold started at `n` -/
+def decFrom (n : Nat) (s : Bytes) : Nat := s.foldl (fun a c => a * 10 + (c.toNat - 48)) n
+
+theorem decVal_eq_decFrom (s : Bytes) : decVal s = decFrom 0 s := rfl
+
+theorem decFrom_ge (s : Bytes) (n : Nat) : n ≤ decFrom n s := by
+  induction s generalizing n with
+  | nil => exact Nat.le_refl n
+  | cons c t ih =>
+    have := ih (n * 10 + (c.toNat - 48))
+    simp only [decFrom, List.foldl_cons] at this ⊢
+    omega
+
+/-- the loop of `ParseUint` (early `ErrRange` exit) computes the closed form: all digits and the
+    whole value within range — digit strings of any length included -/
+theorem parseUint16Loop_eq (s : Bytes) (n : Nat) (hn : n ≤ 65535) :
+    parseUint16Loop s n = if s.all isDigit = true ∧ decFrom n s ≤ 65535 then some (decFrom n s) else none := by
+  induction s generalizing n with
+  | nil => simp [parseUint16Loop, decFrom, hn]
+  | cons c t ih =>
+    unfold parseUint16Loop
+    by_cases hd : isDigit c = true
+    · simp only [hd, if_true]
+      by_cases hr : n * 10 + (c.toNat - 48) > 65535
+      · have hge := decFrom_ge t (n * 10 + (c.toNat - 48))
+        have e : decFrom n (c :: t) = decFrom (n * 10 + (c.toNat - 48)) t := by simp [decFrom]
+        have : ¬ decFrom n (c :: t) ≤ 65535 := by rw [e]; omega
+        simp [hr, this]
+      · have e : decFrom n (c :: t) = decFrom (n * 10 + (c.toNat - 48)) t := by simp [decFrom]
+        simp only [hr, if_false, e, List.all_cons, hd, Bool.true_and]
+        exact ih _ (by omega)
+    · simp [hd]
+
+theorem parseUint16_isSome (p : Bytes) : (parseUint16 p).isSome = validPort p := by
+  unfold parseUint16 validPort
+  cases p with
+  | nil => rfl
+  | cons c t =>
+    rw [decVal_eq_decFrom]
+    simp only [List.isEmpty_cons, Bool.false_eq_true, if_false, Bool.not_false, Bool.true_and]
+    rw [parseUint16Loop_eq _ 0 (by omega)]
+    by_cases h1 : (c :: t).all isDigit = true
+    · by_cases h2 : decFrom 0 (c :: t) ≤ 65535
+      · simp [h1, h2]
+      · simp [h1, h2]
+    · simp [h1]
+
+theorem parseUint16_isNone (p : Bytes) : (parseUint16 p).isNone = !validPort p := by
+  rw [← parseUint16_isSome]; cases parseUint16 p <;> rfl
+
+/-! ### the host check -/
+
+theorem hostOk_eq_validHost (h : Bytes) : hostOk h = validHost h := by
+  unfold hostOk validHost
+  rw [Bool.and_assoc]
+  congr 1
+  induction h with
+  | nil => rfl
+  | cons c t ih =>
+    by_cases h1 : c = 32
+    · subst h1; simp
+    · by_cases h2 : c = 9
+      · subst h2; simp
+      · have a1 : ((32 : UInt8) == c) = false := beq_eq_false_iff_ne.mpr (Ne.symm h1)
+        have a2 : ((9 : UInt8) == c) = false := beq_eq_false_iff_ne.mpr (Ne.symm h2)
+        have b1 : (c != 32) = true := by simp [h1]
+        have b2 : (c != 9) = true := by simp [h2]
+        simp only [List.contains_cons, List.all_cons, a1, a2, b1, b2, Bool.false_or, Bool.true_and, Bool.and_self]
+        exact ih
+
+/-- `parseProxy` in terms of the grammar's predicates -/
+theorem parseProxy_eq (s : Bytes) :
+    parseProxy s =
+      (if (trimSpace s).isEmpty then some noProxy
+       else if trimSpace s == kDIRECT then some ⟨.DIRECT, [], []⟩
+       else match cutAt 32 (trimSpace s) with
+         | none => none
+         | some (k, hp) =>
+           match splitHostPort hp with
+           | none => none
+           | some (h, p) => if validHost h && validPort p then some ⟨parseMode k, h, p⟩ else none) := by
+  unfold parseProxy
+  simp only []
+  split
+  · rfl
+  · split
+    · rfl
+    · cases cutAt 32 (trimSpace s) with
+      | none => rfl
+      | some khp =>
+        obtain ⟨k, hp⟩ := khp
+        simp only []
+        cases splitHostPort hp with
+        | none => rfl
+        | some x =>
+          obtain ⟨h, p⟩ := x
+          simp only [hostOk_eq_validHost, parseUint16_isNone]
+          cases validHost h <;> cases validPort p <;> rfl
+
+/-- an entry is accepted exactly when its address part is well-formed -/
+theorem parseProxy_isSome (s : Bytes) : (parseProxy s).isSome = entryAddrWellFormed s := by
+  rw [parseProxy_eq]
+  unfold entryAddrWellFormed addrWellFormed
+  simp only []
+  cases h1 : (trimSpace s).isEmpty
+  · cases h2 : (trimSpace s == kDIRECT)
+    · simp only [Bool.false_eq_true, if_false, Bool.false_or]
+      cases cutAt 32 (trimSpace s) with
+      | none => rfl
+      | some khp =>
+        obtain ⟨k, hp⟩ := khp
+        simp only []
+        cases splitHostPort hp with
+        | none => rfl
+        | some x =>
+          obtain ⟨h, p⟩ := x
+          simp only []
+          cases validHost h && validPort p <;> rfl
+    · simp
+  · simp
+
+/-- what an accepted entry is mapped to -/
+theorem parseProxy_parts (s : Bytes) (q : Proxy) (h : parseProxy s = some q) :
+    (((trimSpace s).isEmpty = true ∨ trimSpace s = kDIRECT) ∧ q = ⟨.DIRECT, [], []⟩) ∨
+    (∃ k hp, cutAt 32 (trimSpace s) = some (k, hp) ∧ splitHostPort hp = some (q.host, q.port) ∧
+      q.mode = parseMode k ∧ validHost q.host = true ∧ validPort q.port = true) := by
+  rw [parseProxy_eq] at h
+  by_cases h1 : (trimSpace s).isEmpty = true
+  · simp only [h1, if_true, Option.some.injEq] at h
+    exact Or.inl ⟨Or.inl h1, h.symm⟩
+  · by_cases h2 : (trimSpace s == kDIRECT) = true
+    · simp only [h1, h2, if_true, Bool.false_eq_true, if_false, Option.some.injEq] at h
+      exact Or.inl ⟨Or.inr (by simpa using h2), h.symm⟩
+    · simp only [h1, h2, Bool.false_eq_true, if_false] at h
+      cases hc : cutAt 32 (trimSpace s) with
+      | none => simp [hc] at h
+      | some khp =>
+        obtain ⟨k, hp⟩ := khp
+        simp only [hc] at h
+        cases hs : splitHostPort hp with
+        | none => simp [hs] at h
+        | some x =>
+          obtain ⟨a, b⟩ := x
+          simp only [hs] at h
+          by_cases hv : (validHost a && validPort b) = true
+          · simp only [hv, if_true, Option.some.injEq] at h
+            subst h
+            simp only [Bool.and_eq_true] at hv
+            exact Or.inr ⟨k, hp, rfl, hs, rfl, hv.1, hv.2⟩
+          · simp [hv] at h
+
+theorem hostChar_not_blank (c : UInt8) (h : isHostChar c = true) : (c != 32 && c != 9) = true := by
+  by_cases h1 : c = 32
+  · subst h1; revert h; decide
+  · by_cases h2 : c = 9
+    · subst h2; revert h; decide
+    · simp [h1, h2]
+
+theorem hexColonDot_not_blank (c : UInt8) (h : isHexColonDot c = true) : (c != 32 && c != 9) = true := by
+  by_cases h1 : c = 32
+  · subst h1; revert h; decide
+  · by_cases h2 : c = 9
+    · subst h2; revert h; decide
+    · simp [h1, h2]
+
+theorem validHost_of (h : Bytes) (hne : h ≠ []) (hc : ∀ c ∈ h, (c != 32 && c != 9) = true) : validHost h = true := by
+  unfold validHost
+  have : h.isEmpty = false := by cases h <;> simp_all
+  simp only [this, Bool.not_false, Bool.true_and, List.all_eq_true]
+  exact hc
+
+/-- `[host]:port` with a colon-bearing host free of brackets -/
+theorem splitHostPort_bracket (h p : Bytes) (hh : ∀ c ∈ h, c ≠ 91 ∧ c ≠ 93)
+    (hp : ∀ c ∈ p, c ≠ 58 ∧ c ≠ 91 ∧ c ≠ 93) : splitHostPort (91 :: (h ++ 93 :: 58 :: p)) = some (h, p) := by
+  unfold splitHostPort
+  have e0 : (91 : UInt8) :: (h ++ 93 :: 58 :: p) = (91 :: (h ++ [93])) ++ 58 :: p := by simp
+  have hl : lastIndexOf 58 (91 :: (h ++ 93 :: 58 :: p)) = some (h.length + 2) := by
+    rw [e0, lastIndexOf_append 58 _ p (fun x hx => (hp x hx).1)]; simp
+  have hi : indexOf 93 (91 :: (h ++ 93 :: 58 :: p)) = some (h.length + 1) := by
+    unfold indexOf
+    rw [List.findIdx?_cons]
+    simp only [show ((91 : UInt8) == 93) = false by decide, Bool.false_eq_true, if_false]
+    rw [List.findIdx?_append, findIdx_none_of 93 h (fun x hx => (hh x hx).2)]
+    simp [List.findIdx?_cons]
+  rw [hl, hi]
+  have c1 : (h ++ 93 :: 58 :: p).contains 91 = false := contains_false_of 91 _ (by
+    intro x hx
+    rcases List.mem_append.mp hx with hx | hx
+    · exact (hh x hx).1
+    · rcases List.mem_cons.mp hx with rfl | hx
+      · decide
+      · rcases List.mem_cons.mp hx with rfl | hx
+        · decide
+        · exact (hp x hx).2.1)
+  have c2 : ((58 : UInt8) :: p).contains 93 = false := contains_false_of 93 _ (by
+    intro x hx
+    rcases List.mem_cons.mp hx with rfl | hx
+    · decide
+    · exact (hp x hx).2.2)
+  have d1 : (91 :: (h ++ 93 :: 58 :: p)).drop 1 = h ++ 93 :: 58 :: p := rfl
+  have d2 : (91 :: (h ++ 93 :: 58 :: p)).drop (h.length + 1 + 1) = 58 :: p := by
+    simp [List.drop_append]
+  have d3 : ((91 :: (h ++ 93 :: 58 :: p)).take (h.length + 1)).drop 1 = h := by
+    simp
+  have d4 : (91 :: (h ++ 93 :: 58 :: p)).drop (h.length + 2 + 1) = p := by
+    simp [List.drop_append]
+  have l1 : (h.length + 1 + 1 == (91 :: (h ++ 93 :: 58 :: p)).length) = false := by
+    simp <;> omega
+  simp only [List.head?_cons, beq_self_eq_true, if_true, l1, Bool.false_eq_true, if_false, d1, d2, d3, d4, c1, c2]
+
+/-- a well-formed `<keyword> <host>:<port>` entry is parsed to exactly that keyword, host and port;
+    `hp` = the address text, `h`, `p` = what `net.SplitHostPort` makes of it -/
+theorem parseProxy_keyword_addr (k hp h p : Bytes) (hk : isKeyword k = true)
+    (hsplit : splitHostPort hp = some (h, p)) (hvh : validHost h = true) (hvp : validPort p = true)
+    (hend : ∀ c, (k ++ 32 :: hp).getLast? = some c → isGoSpace c = false) :
+    parseProxy (k ++ 32 :: hp) = some ⟨parseMode k, h, p⟩ := by
   have hkw : (k = kPROXY ∨ k = kHTTP ∨ k = kHTTPS) ∨ (k = kSOCKS ∨ k = kSOCKS4 ∨ k = kSOCKS5) := by
     unfold isKeyword at hk
     simp only [Bool.or_eq_true, beq_iff_eq] at hk
     rcases hk with ((((h1 | h1) | h1) | h1) | h1) | h1 <;> simp [h1]
   have main : ∀ k0 : Bytes, (32 : UInt8) ∉ k0 → (∀ c, k0.head? = some c → isGoSpace c = false) → k0 ≠ [] →
-      k = k0 → parseProxy (k ++ 32 :: (h ++ 58 :: p)) = some ⟨parseMode k, h, p⟩ := by
+      k = k0 → parseProxy (k ++ 32 :: hp) = some ⟨parseMode k, h, p⟩ := by
     intro k0 hns hhead hne hk0
     subst hk0
-    unfold parseProxy
-    have hhd : ∀ c, (k ++ 32 :: (h ++ 58 :: p)).head? = some c → isGoSpace c = false := by
+    rw [parseProxy_eq]
+    have hhd : ∀ c, (k ++ 32 :: hp).head? = some c → isGoSpace c = false := by
       intro c hc
       cases k with
       | nil => exact absurd rfl hne
       | cons a t => exact hhead c (by simpa using hc)
-    rw [trimSpace_id _ hhd hlast]
-    have e1 : (k ++ 32 :: (h ++ 58 :: p)).isEmpty = false := by cases k <;> simp
-    have e2 : (k ++ 32 :: (h ++ 58 :: p) == kDIRECT) = false := by
+    rw [trimSpace_id _ hhd hend]
+    have e1 : (k ++ 32 :: hp).isEmpty = false := by cases k <;> simp
+    have e2 : (k ++ 32 :: hp == kDIRECT) = false := by
       apply beq_eq_false_iff_ne.mpr
       intro e
       have : (32 : UInt8) ∈ kDIRECT := by rw [← e]; simp
       revert this; decide
-    simp only [e1, e2, Bool.false_eq_true, if_false, cutAt_append 32 k _ hns, hsplit]
+    simp only [e1, e2, Bool.false_eq_true, if_false, cutAt_append 32 k _ hns, hsplit, hvh, hvp, Bool.and_self, if_true]
   rcases hkw with (h1 | h1 | h1) | (h1 | h1 | h1)
   · exact main kPROXY (by decide) (by decide) (by decide) h1
   · exact main kHTTP (by decide) (by decide) (by decide) h1
@@ -195,6 +399,61 @@ theorem parseProxy_wellformed (k h p : Bytes) (hk : isKeyword k = true)
   · exact main kSOCKS4 (by decide) (by decide) (by decide) h1
   · exact main kSOCKS5 (by decide) (by decide) (by decide) h1
 
+theorem validPort_parts (p : Bytes) (hp : validPort p = true) : p ≠ [] ∧ ∀ c ∈ p, isDigit c = true := by
+  unfold validPort at hp
+  simp only [Bool.and_eq_true, Bool.not_eq_true', List.all_eq_true, decide_eq_true_eq] at hp
+  obtain ⟨⟨hp0, hpd⟩, _⟩ := hp
+  exact ⟨by intro e; subst e; simp at hp0, hpd⟩
+
+/-- the last byte of an entry that ends in a valid port is a digit, hence not white space -/
+theorem last_of_port (a p : Bytes) (hp : validPort p = true) (c : UInt8) (h : (a ++ p).getLast? = some c) :
+    isGoSpace c = false := by
+  obtain ⟨hne, hd⟩ := validPort_parts p hp
+  exact digit_not_space c (hd c (getLast_mem_of_append a p hne c h))
+
+/-- `<keyword> <host>:<port>` with a host name / IPv4 literal -/
+theorem parseProxy_wellformed (k h p : Bytes) (hk : isKeyword k = true) (hne : h ≠ [])
+    (hh : ∀ c ∈ h, isHostChar c = true) (hp : validPort p = true) :
+    parseProxy (k ++ 32 :: (h ++ 58 :: p)) = some ⟨parseMode k, h, p⟩ := by
+  obtain ⟨_, hpd⟩ := validPort_parts p hp
+  refine parseProxy_keyword_addr k _ h p hk
+    (splitHostPort_plain h p (fun c hc => hostChar_ok c (hh c hc)) (fun c hc => digit_ok c (hpd c hc)))
+    (validHost_of h hne (fun c hc => hostChar_not_blank c (hh c hc))) hp ?_
+  intro c hc
+  have e : k ++ 32 :: (h ++ 58 :: p) = (k ++ 32 :: (h ++ [58])) ++ p := by simp
+  rw [e] at hc
+  exact last_of_port _ p hp c hc
+
+/-- `<keyword> [<IPv6 literal>]:<port>`: the brackets are stripped -/
+theorem parseProxy_wellformed_v6 (k h p : Bytes) (hk : isKeyword k = true) (hne : h ≠ [])
+    (hh : ∀ c ∈ h, isHexColonDot c = true) (hp : validPort p = true) :
+    parseProxy (k ++ 32 :: 91 :: (h ++ 93 :: 58 :: p)) = some ⟨parseMode k, h, p⟩ := by
+  obtain ⟨_, hpd⟩ := validPort_parts p hp
+  have hb : ∀ c ∈ h, c ≠ 91 ∧ c ≠ 93 := by
+    intro c hc
+    have := hh c hc
+    refine ⟨?_, ?_⟩ <;> (intro e; subst e; revert this; decide)
+  refine parseProxy_keyword_addr k _ h p hk
+    (splitHostPort_bracket h p hb (fun c hc => digit_ok c (hpd c hc)))
+    (validHost_of h hne (fun c hc => hexColonDot_not_blank c (hh c hc))) hp ?_
+  intro c hc
+  have e : k ++ 32 :: 91 :: (h ++ 93 :: 58 :: p) = (k ++ 32 :: 91 :: (h ++ [93, 58])) ++ p := by simp
+  rw [e] at hc
+  exact last_of_port _ p hp c hc
+
+theorem mapM_some_of_mem_result {α β : Type} (f : α → Option β) (l : List α) (ys : List β) (h : l.mapM f = some ys)
+    (y : β) (hy : y ∈ ys) : ∃ x, x ∈ l ∧ f x = some y := by
+  induction l generalizing ys with
+  | nil => simp at h; subst h; simp at hy
+  | cons a t ih =>
+    cases ys with
+    | nil =>  simp at hy
+    | cons y0 ys' =>
+      obtain ⟨h1, h2⟩ := mapM_cons_some f a t y0 ys' h
+      rcases List.mem_cons.mp hy with rfl | hm
+      · exact ⟨a, by simp, h1⟩
+      · obtain ⟨x, hx, hfx⟩ := ih ys' h2 hm
+        exact ⟨x, List.mem_cons_of_mem _ hx, hfx⟩
 
 theorem mapM_some_mem {α β : Type} (f : α → Option β) (l : List α) (ys : List β) (h : l.mapM f = some ys)
     (x : α) (hx : x ∈ l) : ∃ y, f x = some y := by
